@@ -155,3 +155,29 @@ Proof.
     split; [apply hevc_hdr_parse; exact Hsh|apply (hevc_slice_size_le _ _ _ _ Hsh)].
   - unfold hevc_hdr. rewrite Hh. reflexivity.
 Qed.
+
+(* an empty NAL unit in front of another NAL unit of less than 2^24 bytes, AVC cbcs: the byte the code takes for the
+   NAL header is the top byte 0 of the next length field, NAL unit type 0 counts as video, the empty NAL unit goes to
+   avc.ParseSliceHeader, which fails on it: the sample is refused *)
+Lemma avc_parse_empty spsmap ppsmap : parse_slice_er spsmap ppsmap [] = Err.
+Proof. reflexivity. Qed.
+
+Lemma cbcs_empty_inside_refused_avc spsmap ppsmap pre n2 post :
+  (forall m, In m pre -> nonempty m = true /\
+             (first_is_video avc_is_video m = true -> exists sh, parse_slice_er spsmap ppsmap m = Ok sh)) ->
+  lenN n2 < 16777216 ->
+  lenN (frames (pre ++ [] :: n2 :: post)) < 4294967296 ->
+  avc_protect_ranges spsmap ppsmap Cbcs (frames (pre ++ [] :: n2 :: post)) = Err.
+Proof.
+  intros Hpre Hn2 Hlen. unfold avc_protect_ranges.
+  apply (protect_ranges_empty_inside_err avc_is_video (avc_hdr spsmap ppsmap) Cbcs
+           (p_cbcs avc_is_video (hs_of (avc_hdr spsmap ppsmap))) (fun _ => True) I pre n2 post eq_refl).
+  - rewrite N.div_small by exact Hn2. reflexivity.
+  - unfold avc_hdr. rewrite avc_parse_empty. reflexivity.
+  - exact Hlen.
+  - apply Forall_forall. intros m Hm. split; [|exact I]. destruct (Hpre m Hm) as [Hne Hp].
+    destruct m as [|c0 u]; [discriminate|]. unfold decides, p_cbcs, hs_of. cbn [first_is_video] in *.
+    destruct (avc_is_video c0); [|reflexivity].
+    destruct (Hp eq_refl) as (sh & Hsh). exists (sh_size sh). rewrite (avc_hdr_parse _ _ _ _ Hsh).
+    split; [reflexivity|]. split; [apply (avc_slice_size_le _ _ _ _ Hsh)|reflexivity].
+Qed.
